@@ -58,6 +58,19 @@ def run_euler(case):
     n_eval = 0
     max_mat = max_rt = max_jac = 0.0
     em = error_model.InsErrorModel()
+    work = np.zeros(3)          # one caller-owned float array, rewritten in place for every triple
+    # consecutive single calls with ONE caller-owned array rewritten in place (nothing else called in between)
+    mats_w = []
+    for (r, pp, h) in triples:
+        work[:] = (r, pp, h)
+        mats_w.append(np.array(transform.mat_from_rph(work)))
+        if (work != np.array([r, pp, h])).any():
+            viol.append(dict(sig='c17-arg-mutated', msg='mat_from_rph modified its argument'))
+    for i, (r, pp, h) in enumerate(triples):
+        if np.abs(mats_w[i] - stacked[i]).max() > 4 * EPS:
+            viol.append(dict(sig='c17-work-array-form', msg='mat_from_rph of a caller-owned array rewritten in place '
+                             'between calls differs from the stacked form at %r' % ([r, pp, h],)))
+            break
     for i, (r, pp, h) in enumerate(triples):
         n_eval += 1
         ref = rot.c_nb(r * D2R, pp * D2R, h * D2R)
